@@ -5,7 +5,9 @@
    disj g g'       : no atom of g is in g'
    last_ft outs    : the total force reported at the last step of a history (0 for the empty history)
    applied_force   : f = fb - (hideJacobian ? fj : 0), the force the variable distributes to its atoms
-   adds_fj cv      : collect_cvc_total_forces adds the Jacobian force (not when hidden and (subtracted or same-step))
+   adds_fj cv comp : collect_cvc_total_forces adds the Jacobian force (not when hidden and (subtracted or same-step or the compensating
+                     force was not applied at the step reported: comp = hidden && a bias applied a force))
+   e_apply i       : at this step some bias applies a force to the variable (f_cv_apply_force)
    eng_run         : histories of (positions, engine force field, bias force on the variable), engine convention per
                      cv_samestep, "includecv" = the engine's total force contains the forces Colvars applied. *)
 From Coq Require Import ZArith List Bool Arith Reals Lra.
@@ -96,15 +98,22 @@ Theorem C07_inverse_gyration : forall (cell : option RV) (mass : nat -> R) (pos 
 Proof. exact thm_inverse_gyration. Qed.
 Print Assumptions C07_inverse_gyration.
 
-(* rmsd without rotation, with any number of permuted copies of the reference (atomPermutation): whichever copy is the closest, gradients and
-   inverse gradients use the same one; when the group is centred it must be centred on the centre of the reference positions *)
-Theorem C07_inverse_rmsd : forall (cell : option RV) (mass : nat -> R) (pos : RF) (ids : list nat) (refs : list RV) (extra : list (list RV)) (center : option RV) (fc : R),
+(* rmsd without rotation and without centring, with any number of permuted copies of the reference (atomPermutation): whichever copy is the\n   closest, gradients and inverse gradients use the same one *)
+Theorem C07_inverse_rmsd : forall (cell : option RV) (mass : nat -> R) (pos : RF) (ids : list nat) (refs : list RV) (extra : list (list RV)) (fc : R),
   NoDup ids -> (forall r, In r (refs :: extra) -> length r = length ids) ->
-  rmsd_value Rops pos ids (rmsd_best Rops pos ids refs extra center) center <> 0 ->
-  (forall rc, center = Some rc -> forall r, In r (refs :: extra) -> vsum Rops r = vscale Rops (ofnat Rops (length ids)) rc) ->
-  cvc_ft Rops PI cell mass pos (CRmsd ids refs extra center) (cvc_apply Rops PI cell mass pos (CRmsd ids refs extra center) fc) = fc.
+  rmsd_value Rops pos ids (rmsd_best Rops pos ids refs extra None) None <> 0 ->
+  cvc_ft Rops PI cell mass pos (CRmsd ids refs extra None) (cvc_apply Rops PI cell mass pos (CRmsd ids refs extra None) fc) = fc.
 Proof. exact thm_inverse_rmsd. Qed.
 Print Assumptions C07_inverse_rmsd.
+
+(* centred rmsd (fit gradients on; code with fix-C07-3): the total force is projected on the complete gradient grad + fit, normalised by its\n   squared norm: the inverse holds wherever the group is centred (the earlier condition on the centre of its own references is gone) *)
+Theorem C07_inverse_rmsd_centered : forall (cell : option RV) (mass : nat -> R) (pos : RF) (ids : list nat) (refs : list RV) (extra : list (list RV)) (rc : RV) (fc : R),
+  NoDup ids -> (forall r, In r (refs :: extra) -> length r = length ids) ->
+  (let g := rmsd_grads Rops pos ids (rmsd_best Rops pos ids refs extra (Some rc)) (Some rc) in
+   norm2_sum Rops (vadd_list Rops g (fit_grads Rops (length ids) (Some rc) g)) <> 0) ->
+  cvc_ft Rops PI cell mass pos (CRmsd ids refs extra (Some rc)) (cvc_apply Rops PI cell mass pos (CRmsd ids refs extra (Some rc)) fc) = fc.
+Proof. exact thm_inverse_rmsd_centered. Qed.
+Print Assumptions C07_inverse_rmsd_centered.
 
 (* eigenvector without rotation (any centring): the centred vector must not be null *)
 Theorem C07_inverse_eigenvector : forall (cell : option RV) (mass : nat -> R) (pos : RF) (ids : list nat) (refs evec : list RV) (center : option RV) (fc : R),
@@ -113,16 +122,24 @@ Theorem C07_inverse_eigenvector : forall (cell : option RV) (mass : nat -> R) (p
 Proof. exact thm_inverse_eigenvector. Qed.
 Print Assumptions C07_inverse_eigenvector.
 
-(* rotated frames (the default fit of rmsd / eigenvector): the rotation matrix used at the step is an input of the model; whenever it is
-   orthogonal (R R^T = 1), rotating the forces into the frame of the gradients (read_total_forces) inverts rotating the applied forces back;
-   with atomPermutation copies as above *)
-Theorem C07_inverse_rmsd_rotated : forall (cell : option RV) (mass : nat -> R) (pos : RF) (ids : list nat) (refs : list RV) (extra : list (list RV)) (rotf : RF -> RQ) (jdf : RF -> R) (fc : R),
-  NoDup ids -> (forall r, In r (refs :: extra) -> length r = length ids) ->
-  qnorm2 Rops (rotf pos) = 1 ->
-  rmsdrot_value Rops pos ids refs (rotmat Rops (rotf pos)) (rmsdrot_best Rops pos ids refs extra (rotmat Rops (rotf pos))) <> 0 ->
-  cvc_ft Rops PI cell mass pos (CRmsdRot ids refs extra rotf jdf) (cvc_apply Rops PI cell mass pos (CRmsdRot ids refs extra rotf jdf) fc) = fc.
+(* rotated frames (the default fit of rmsd / eigenvector): the optimal quaternion of the step is an input of the model, the matrices are\n   quaternion::rotation_matrix of it and of its conjugate; for every unit quaternion, rotating the forces into the frame of the gradients\n   (read_total_forces) inverts rotating the applied forces back.  Standard rmsd (no atomPermutation): no fit gradients *)
+Theorem C07_inverse_rmsd_rotated : forall (cell : option RV) (mass : nat -> R) (pos : RF) (ids : list nat) (refs : list RV) (rotf : RF -> RQ) (jdf : RF -> R) (fitf : RF -> list RV) (fc : R),
+  NoDup ids -> length refs = length ids -> qnorm2 Rops (rotf pos) = 1 ->
+  rmsdrot_value Rops pos ids refs (rotmat Rops (rotf pos)) refs <> 0 ->
+  cvc_ft Rops PI cell mass pos (CRmsdRot ids refs [] rotf jdf fitf) (cvc_apply Rops PI cell mass pos (CRmsdRot ids refs [] rotf jdf fitf) fc) = fc.
 Proof. exact thm_inverse_rmsd_rotated. Qed.
 Print Assumptions C07_inverse_rmsd_rotated.
+
+(* symmetry-adapted rotated rmsd (atomPermutation, default fit): the applied forces contain fc * fit_gradients (derivatives of the optimal rotation,\n   an input of the model); with fix-C07-3 the total force is projected on the complete gradient, and that is the inverse for EVERY value of the input *)
+Theorem C07_inverse_rmsd_rotated_permuted : forall (cell : option RV) (mass : nat -> R) (pos : RF) (ids : list nat) (refs : list RV) (e : list RV) (es : list (list RV)) (rotf : RF -> RQ) (jdf : RF -> R) (fitf : RF -> list RV) (fc : R),
+  NoDup ids -> (forall r, In r (refs :: e :: es) -> length r = length ids) -> length (fitf pos) = length ids ->
+  qnorm2 Rops (rotf pos) = 1 ->
+  (let R := rotmat Rops (rotf pos) in
+   let g := rmsdrot_grads Rops pos ids refs R (rmsdrot_best Rops pos ids refs (e :: es) R) in
+   norm2_sum Rops (vadd_list Rops g (map (mvmul Rops R) (fitf pos))) <> 0) ->
+  cvc_ft Rops PI cell mass pos (CRmsdRot ids refs (e :: es) rotf jdf fitf) (cvc_apply Rops PI cell mass pos (CRmsdRot ids refs (e :: es) rotf jdf fitf) fc) = fc.
+Proof. exact thm_inverse_rmsd_rotated_permuted. Qed.
+Print Assumptions C07_inverse_rmsd_rotated_permuted.
 
 (* quaternion::rotation_matrix of a unit quaternion is orthogonal (R R^T = 1) and rotation::inverse().matrix() (conjugate quaternion) is its transpose *)
 Theorem C07_rotation_matrices : forall q : RQ, qnorm2 Rops q = 1 ->
@@ -164,20 +181,20 @@ Print Assumptions C07_pm1_combination.
    (the engine's own force vanishes on them), the report of step t is the applied variable force f(t-1), plus kT*jd(t-1)
    unless hidden, minus f(t-1) with subtractAppliedForce *)
 Theorem C07_inverse_lagged : forall (cell : option RV) (mass : nat -> R) (cv : colvar) (pre : list einput) (s : estate) (i1 i2 : einput),
-  cv_samestep cv = false ->
+  cv_samestep cv = false -> e_apply i1 = true ->
   Forall (fun p => forall fc, cvc_ft Rops PI cell mass (e_pos i1) (fst p) (cvc_apply Rops PI cell mass (e_pos i1) (fst p) fc) = fc) (cv_comps cv) ->
   ForallOrdPairs (fun p q => forall a, In a (cvc_atoms (fst p)) -> ~ In a (cvc_atoms (fst q))) (cv_comps cv) ->
   cv_sqnorm Rops cv <> 0 ->
   (forall a, In a (cv_atoms cv) -> e_force i1 a = vzero Rops) ->
   last_ft (snd (eng_run Rops PI cell mass cv true s (pre ++ [i1; i2]))) =
-    applied_force Rops cv (e_fb i1) (cv_fj Rops PI cell mass (e_pos i1) cv) + (if adds_fj cv then cv_fj Rops PI cell mass (e_pos i1) cv else 0)
-    - (if cv_subtract cv then applied_force Rops cv (e_fb i1) (cv_fj Rops PI cell mass (e_pos i1) cv) else 0).
+    applied_force Rops cv (e_apply i1) (e_fb i1) (cv_fj Rops PI cell mass (e_pos i1) cv) + (if adds_fj cv (cv_hide cv) then cv_fj Rops PI cell mass (e_pos i1) cv else 0)
+    - (if cv_subtract cv then applied_force Rops cv (e_apply i1) (e_fb i1) (cv_fj Rops PI cell mass (e_pos i1) cv) else 0).
 Proof. exact thm_inverse_lagged. Qed.
 Print Assumptions C07_inverse_lagged.
 
 (* f plus the temperature-weighted Jacobian term *)
 Theorem C07_inverse_lagged_jacobian : forall (cell : option RV) (mass : nat -> R) (cv : colvar) (pre : list einput) (s : estate) (i1 i2 : einput),
-  cv_samestep cv = false -> cv_hide cv = false -> cv_subtract cv = false ->
+  cv_samestep cv = false -> e_apply i1 = true -> cv_hide cv = false -> cv_subtract cv = false ->
   Forall (fun p => forall fc, cvc_ft Rops PI cell mass (e_pos i1) (fst p) (cvc_apply Rops PI cell mass (e_pos i1) (fst p) fc) = fc) (cv_comps cv) ->
   ForallOrdPairs (fun p q => forall a, In a (cvc_atoms (fst p)) -> ~ In a (cvc_atoms (fst q))) (cv_comps cv) ->
   cv_sqnorm Rops cv <> 0 ->
@@ -188,7 +205,7 @@ Print Assumptions C07_inverse_lagged_jacobian.
 
 (* Jacobian term hidden on request: the bias force alone *)
 Theorem C07_inverse_lagged_hidden : forall (cell : option RV) (mass : nat -> R) (cv : colvar) (pre : list einput) (s : estate) (i1 i2 : einput),
-  cv_samestep cv = false -> cv_hide cv = true -> cv_subtract cv = false ->
+  cv_samestep cv = false -> e_apply i1 = true -> cv_hide cv = true -> cv_subtract cv = false ->
   Forall (fun p => forall fc, cvc_ft Rops PI cell mass (e_pos i1) (fst p) (cvc_apply Rops PI cell mass (e_pos i1) (fst p) fc) = fc) (cv_comps cv) ->
   ForallOrdPairs (fun p q => forall a, In a (cvc_atoms (fst p)) -> ~ In a (cvc_atoms (fst q))) (cv_comps cv) ->
   cv_sqnorm Rops cv <> 0 ->
@@ -199,7 +216,7 @@ Print Assumptions C07_inverse_lagged_hidden.
 
 (* temperature zero: no Jacobian term *)
 Theorem C07_inverse_lagged_T0 : forall (cell : option RV) (mass : nat -> R) (cv : colvar) (pre : list einput) (s : estate) (i1 i2 : einput),
-  cv_samestep cv = false -> cv_kT cv = 0 -> cv_subtract cv = false ->
+  cv_samestep cv = false -> e_apply i1 = true -> cv_kT cv = 0 -> cv_subtract cv = false ->
   Forall (fun p => forall fc, cvc_ft Rops PI cell mass (e_pos i1) (fst p) (cvc_apply Rops PI cell mass (e_pos i1) (fst p) fc) = fc) (cv_comps cv) ->
   ForallOrdPairs (fun p q => forall a, In a (cvc_atoms (fst p)) -> ~ In a (cvc_atoms (fst q))) (cv_comps cv) ->
   cv_sqnorm Rops cv <> 0 ->
@@ -207,6 +224,15 @@ Theorem C07_inverse_lagged_T0 : forall (cell : option RV) (mass : nat -> R) (cv 
   last_ft (snd (eng_run Rops PI cell mass cv true s (pre ++ [i1; i2]))) = e_fb i1.
 Proof. exact thm_inverse_lagged_T0. Qed.
 Print Assumptions C07_inverse_lagged_T0.
+
+(* a step at which NO bias applies a force to the variable (bias asleep, switched off, deleted, none defined): nothing of Colvars is in the\n   engine's forces and no Jacobian-compensating force was applied, so the next report is the projection of the engine's forces,\n   plus the Jacobian term unless hidden (f_old = fb, normally 0, is still subtracted with subtractAppliedForce) *)
+Theorem C07_lagged_not_applied : forall (cell : option RV) (mass : nat -> R) (cv : colvar) (inc : bool) (pre : list einput) (s : estate) (i1 i2 : einput),
+  cv_samestep cv = false -> e_apply i1 = false ->
+  last_ft (snd (eng_run Rops PI cell mass cv inc s (pre ++ [i1; i2]))) =
+    cv_proj Rops PI cell mass (e_pos i1) cv (e_force i1) + (if cv_hide cv then 0 else cv_fj Rops PI cell mass (e_pos i1) cv)
+    - (if cv_subtract cv then e_fb i1 else 0).
+Proof. exact thm_lagged_not_applied. Qed.
+Print Assumptions C07_lagged_not_applied.
 
 (* same-step convention, every history: the engine's force on the variable's atoms is the distribution of a variable force f *)
 Theorem C07_inverse_same_step : forall (cell : option RV) (mass : nat -> R) (cv : colvar) (inc : bool) (pre : list einput) (s : estate) (i : einput) (f : R),
@@ -250,7 +276,7 @@ Print Assumptions C07_local_variable.
 (* reports: two histories whose step t-1 differs only by engine forces on atoms outside the variable's groups
    (and arbitrarily before t-1 and at t) report the same total force at t *)
 Theorem C07_local_report_lagged : forall (cell : option RV) (mass : nat -> R) (cv : colvar) (inc : bool) (pre pre' : list einput) (s s' : estate) (i1 i1' i2 i2' : einput),
-  cv_samestep cv = false -> e_pos i1 = e_pos i1' -> e_fb i1 = e_fb i1' ->
+  cv_samestep cv = false -> e_pos i1 = e_pos i1' -> e_fb i1 = e_fb i1' -> e_apply i1 = e_apply i1' ->
   (forall a, In a (cv_atoms cv) -> e_force i1 a = e_force i1' a) ->
   last_ft (snd (eng_run Rops PI cell mass cv inc s (pre ++ [i1; i2]))) = last_ft (snd (eng_run Rops PI cell mass cv inc s' (pre' ++ [i1'; i2']))).
 Proof. exact thm_local_report_lagged. Qed.
@@ -266,7 +292,7 @@ Print Assumptions C07_local_report_same_step.
 (* subtractAppliedForce (lagged convention, the engine's total force includes Colvars' forces): the report is the projection of the
    engine's own forces (+ Jacobian term unless hidden) whatever force Colvars applied *)
 Theorem C07_subtract_applied : forall (cell : option RV) (mass : nat -> R) (cv : colvar) (pre : list einput) (s : estate) (i1 i2 : einput),
-  cv_samestep cv = false -> cv_subtract cv = true ->
+  cv_samestep cv = false -> e_apply i1 = true -> cv_subtract cv = true ->
   Forall (fun p => forall fc, cvc_ft Rops PI cell mass (e_pos i1) (fst p) (cvc_apply Rops PI cell mass (e_pos i1) (fst p) fc) = fc) (cv_comps cv) ->
   ForallOrdPairs (fun p q => forall a, In a (cvc_atoms (fst p)) -> ~ In a (cvc_atoms (fst q))) (cv_comps cv) ->
   cv_sqnorm Rops cv <> 0 ->
@@ -277,13 +303,13 @@ Print Assumptions C07_subtract_applied.
 
 (* ... and without the option it contains the applied force of step t-1 *)
 Theorem C07_without_subtract : forall (cell : option RV) (mass : nat -> R) (cv : colvar) (pre : list einput) (s : estate) (i1 i2 : einput),
-  cv_samestep cv = false -> cv_subtract cv = false ->
+  cv_samestep cv = false -> e_apply i1 = true -> cv_subtract cv = false ->
   Forall (fun p => forall fc, cvc_ft Rops PI cell mass (e_pos i1) (fst p) (cvc_apply Rops PI cell mass (e_pos i1) (fst p) fc) = fc) (cv_comps cv) ->
   ForallOrdPairs (fun p q => forall a, In a (cvc_atoms (fst p)) -> ~ In a (cvc_atoms (fst q))) (cv_comps cv) ->
   cv_sqnorm Rops cv <> 0 ->
   last_ft (snd (eng_run Rops PI cell mass cv true s (pre ++ [i1; i2]))) =
-    cv_proj Rops PI cell mass (e_pos i1) cv (e_force i1) + applied_force Rops cv (e_fb i1) (cv_fj Rops PI cell mass (e_pos i1) cv)
-    + (if adds_fj cv then cv_fj Rops PI cell mass (e_pos i1) cv else 0).
+    cv_proj Rops PI cell mass (e_pos i1) cv (e_force i1) + applied_force Rops cv (e_apply i1) (e_fb i1) (cv_fj Rops PI cell mass (e_pos i1) cv)
+    + (if adds_fj cv (cv_hide cv) then cv_fj Rops PI cell mass (e_pos i1) cv else 0).
 Proof. exact thm_without_subtract. Qed.
 Print Assumptions C07_without_subtract.
 
@@ -293,9 +319,9 @@ Theorem C07_timing : forall (cell : option RV) (mass : nat -> R) (cv : colvar) (
   cv_samestep cv = false -> forall (pre : list einput) (s : estate),
   last_ft (snd (eng_run Rops PI cell mass cv inc s (pre ++ [i1; i2]))) =
     cv_proj Rops PI cell mass (e_pos i1) cv
-      (if inc then fadd Rops (e_force i1) (cv_apply Rops PI cell mass (e_pos i1) cv (applied_force Rops cv (e_fb i1) (cv_fj Rops PI cell mass (e_pos i1) cv))) else e_force i1)
-    + (if adds_fj cv then cv_fj Rops PI cell mass (e_pos i1) cv else 0)
-    - (if cv_subtract cv then applied_force Rops cv (e_fb i1) (cv_fj Rops PI cell mass (e_pos i1) cv) else 0).
+      (if inc then fadd Rops (e_force i1) (if e_apply i1 then cv_apply Rops PI cell mass (e_pos i1) cv (applied_force Rops cv (e_apply i1) (e_fb i1) (cv_fj Rops PI cell mass (e_pos i1) cv)) else fzero Rops) else e_force i1)
+    + (if adds_fj cv (cv_hide cv && e_apply i1) then cv_fj Rops PI cell mass (e_pos i1) cv else 0)
+    - (if cv_subtract cv then applied_force Rops cv (e_apply i1) (e_fb i1) (cv_fj Rops PI cell mass (e_pos i1) cv) else 0).
 Proof. exact thm_timing. Qed.
 Print Assumptions C07_timing.
 
@@ -385,10 +411,13 @@ Example C07_ex_dihedral :
 Proof. exact ex_dihedral. Qed.
 Example C07_ex_gyration : NoDup [0%nat; 1%nat] /\ gyr_value Rops ex_pos [0%nat; 1%nat] <> 0.
 Proof. exact ex_gyration. Qed.
-Example C07_ex_rmsd : forall c, c = None \/ c = Some (0, 0, 0) ->
-  NoDup [0%nat; 1%nat] /\ length ex_refs = length [0%nat; 1%nat] /\ rmsd_value Rops ex_pos [0%nat; 1%nat] ex_refs c <> 0 /\
-  (forall rc, c = Some rc -> vsum Rops ex_refs = vscale Rops (ofnat Rops (length [0%nat; 1%nat])) rc).
-Proof. exact ex_rmsd. Qed.
+Example C07_ex_rmsd :
+  NoDup [0%nat; 1%nat] /\ length ex_refs = length [0%nat; 1%nat] /\ rmsd_value Rops ex_pos [0%nat; 1%nat] ex_refs None <> 0.
+Proof. exact ((fun H => conj (proj1 H) (conj (proj1 (proj2 H)) (proj1 (proj2 (proj2 H))))) (ex_rmsd None (or_introl eq_refl))). Qed.
+Example C07_ex_rmsd_centered :
+  let g := rmsd_grads Rops ex_pos [0%nat; 1%nat] (rmsd_best Rops ex_pos [0%nat; 1%nat] ex_refs [] (Some (0, 0, 0))) (Some (0, 0, 0)) in
+  norm2_sum Rops (vadd_list Rops g (fit_grads Rops (length [0%nat; 1%nat]) (Some (0, 0, 0)) g)) <> 0.
+Proof. exact ex_rmsd_centered. Qed.
 Example C07_ex_eigenvector :
   NoDup [0%nat; 1%nat] /\ length ex_evec = length [0%nat; 1%nat] /\ norm2_sum Rops (eig_vec Rops ex_evec) <> 0.
 Proof. exact ex_eigenvector. Qed.
@@ -407,21 +436,21 @@ Example C07_ex_pm1 : forall h sb sm kT,
 Proof. exact ex_cv_pm1. Qed.
 (* the history theorems with all premises discharged on that variable *)
 Example C07_ex_lagged_jacobian : forall pre s pos fb1 i2 kT,
-  last_ft (snd (eng_run Rops PI None ex_mass (ex_cv false false false kT) true s (pre ++ [mkEinput pos (fzero Rops) fb1; i2])))
+  last_ft (snd (eng_run Rops PI None ex_mass (ex_cv false false false kT) true s (pre ++ [mkEinput pos (fzero Rops) fb1 true; i2])))
   = fb1 + cv_fj Rops PI None ex_mass pos (ex_cv false false false kT).
 Proof. exact ex_lagged_jacobian. Qed.
 Example C07_ex_lagged_hidden : forall pre s pos fb1 i2 kT,
-  last_ft (snd (eng_run Rops PI None ex_mass (ex_cv true false false kT) true s (pre ++ [mkEinput pos (fzero Rops) fb1; i2]))) = fb1.
+  last_ft (snd (eng_run Rops PI None ex_mass (ex_cv true false false kT) true s (pre ++ [mkEinput pos (fzero Rops) fb1 true; i2]))) = fb1.
 Proof. exact ex_lagged_hidden. Qed.
 Example C07_ex_lagged_T0 : forall pre s pos fb1 i2 h,
-  last_ft (snd (eng_run Rops PI None ex_mass (ex_cv h false false 0) true s (pre ++ [mkEinput pos (fzero Rops) fb1; i2]))) = fb1.
+  last_ft (snd (eng_run Rops PI None ex_mass (ex_cv h false false 0) true s (pre ++ [mkEinput pos (fzero Rops) fb1 true; i2]))) = fb1.
 Proof. exact ex_lagged_T0. Qed.
 Example C07_ex_same_step : forall inc pre s pos fb f h sb kT,
   last_ft (snd (eng_run Rops PI None ex_mass (ex_cv h sb true kT) inc s
-                  (pre ++ [mkEinput pos (cv_apply Rops PI None ex_mass pos (ex_cv h sb true kT) f) fb])))
+                  (pre ++ [mkEinput pos (cv_apply Rops PI None ex_mass pos (ex_cv h sb true kT) f) fb true])))
   = f + (if h then 0 else cv_fj Rops PI None ex_mass pos (ex_cv h sb true kT)).
 Proof. exact ex_same_step. Qed.
 Example C07_ex_subtract : forall pre s pos F fb1 i2 h kT,
-  last_ft (snd (eng_run Rops PI None ex_mass (ex_cv h true false kT) true s (pre ++ [mkEinput pos F fb1; i2])))
+  last_ft (snd (eng_run Rops PI None ex_mass (ex_cv h true false kT) true s (pre ++ [mkEinput pos F fb1 true; i2])))
   = cv_proj Rops PI None ex_mass pos (ex_cv h true false kT) F + (if h then 0 else cv_fj Rops PI None ex_mass pos (ex_cv h true false kT)).
 Proof. exact ex_subtract. Qed.
